@@ -607,7 +607,7 @@ class C06(Property):
     title = "Deriving or instantiating a schema never alters the schema it came from"
     proof_module = "Proofs.C06"
     theorems = ["Flatland.C06.Proofs." + t for t in (
-        "frame", "frame_observe", "frame_of_pre", "step_pre", "instance_local",
+        "frame", "frame_partial", "frame_observe", "frame_of_pre", "step_pre", "instance_local",
         "schema_fields", "addUnseen_spec", "addAndOverwrite_spec",
         "WF_of_wfB", "C06_full_fails",
     )]
